@@ -4,23 +4,32 @@ C01 — both simulation backends compute the state the circuit defines.
 Correspondence: random circuits over the whole op alphabet on mixed emitter/photon/classical registers are compiled by the real
 StabilizerCompiler and DensityMatrixCompiler (subclassed only to snapshot the otherwise-discarded classical record) in all three
 measurement settings; the same op sequence (the implementation's own `sequence()`) is run by the Lean model (`circ.stab`).
-  exact: stabilizer backend tableau, record, outcomes == model's;  DM backend == rho(model tableau) within 1e-9, record equal.
+  exact: stabilizer backend tableau, record, outcomes == model's;  DM backend == rho(model tableau) within 1e-8, record equal;
+  DM backend == the executable exact density-matrix model `compileDM` (driver `noise.run be=dm ns=0`, n_quantum <= 4, forced settings),
+  which Properties/C01.lean proves equal to rho(stabRun) for every circuit (also evaluated here on the compiled model);
+  graphiq's matrix builders == the entrywise Hilbert-space primitives of the proofs (`primitives_check`, all n <= 4);
+  RNG draws of both backends == number of random measurements of the model.
 Direct oracle (independent numpy reference of textbook semantics): all registers start in |0>, photons indexed before emitters,
 forced outcomes honoured exactly when possible, a reset leaves the measured qubit in |0>, record = outcomes, backends agree.
 """
 import numpy as np
 
 from harness import tabutil as tu
+from harness import dmutil as du
 from harness.common import Driver, Result, err_class
 
 LEVEL = "proof"
 TRUSTED_BASE = [
     "Lean 4.33 kernel",
     "hand-written model GraphiqModel/Model/{Circuit,Tableau,Pauli}.lean tied to compiler_base.py/stabilizer/compiler.py by this correspondence run",
-    "the density-matrix backend is tied numerically (1e-9) to rho(model state); tensor lifting of Pauli-group semantics to Hilbert space is cited",
+    "density-matrix backend: agreement of its compile loop with the stabilizer compile loop is a theorem (C01 backends_agree, executable_dm_model_agrees) about the exact "
+    "semantics; that the floating-point numpy code computes this semantics is tied numerically (1e-8) per circuit: real DensityMatrixCompiler vs rho(model state) and "
+    "vs the executable exact model Noise.compileDM (n_quantum <= 4, forced settings)",
     "numpy reference simulator (n_quantum <= 6), patched numpy RNG entry points (randint, choice) to script measurement outcomes",
 ]
 ASSUMPTIONS = ["noise-free compilation (noise is C06)", "circuits are built through CircuitDAG.add from valid operations"]
+
+DM_EXEC_MAX_N = 4  # the exact rational density-matrix model is run for n_quantum <= 4 (16x16 matrices over Q[i])
 
 GEN_NAMES = ["Identity", "Hadamard", "Phase", "SigmaX", "SigmaY", "SigmaZ"]
 TOK1 = {"Identity": "I", "Hadamard": "H", "Phase": "P", "SigmaX": "X", "SigmaY": "Y", "SigmaZ": "Z", "PhaseDagger": "PD"}
@@ -150,6 +159,29 @@ def tokens_of(circuit):
     return toks, kinds
 
 
+DM_KIND = {"Identity": "identity", "Hadamard": "h", "Phase": "s", "SigmaX": "x", "SigmaY": "y", "SigmaZ": "z", "PhaseDagger": "sdg",
+           "CX": "cnot", "CZ": "cz", "CCX": "ccnot", "CCZ": "ccz", "MCR": "mcr"}
+
+
+def dm_tokens(kinds):
+    """the circuit as `DMX.trOps` of Proofs/DMCompileExec.lean translates it for the executable density-matrix model
+    (`noise.run be=dm ns=0`): the unwrapped sequence, a wrapper's gates in reversed list order"""
+    toks = []
+    for k in kinds:
+        if k[0] == "W":
+            for g in reversed(k[1]):
+                toks.append(f"{DM_KIND[g]}:{k[2][1]}:{k[2][0]}:0:e:0:N:N")
+        elif k[0] in ("CX", "CZ"):
+            toks.append(f"{DM_KIND[k[0]]}:{k[1][1]}:{k[1][0]}:{k[2][1]}:{k[2][0]}:0:N:N")
+        elif k[0] == "MZ":
+            toks.append(f"measz:{k[1][1]}:{k[1][0]}:0:e:{k[2]}:N:N")
+        elif k[0] in ("CCX", "CCZ", "MCR"):
+            toks.append(f"{DM_KIND[k[0]]}:{k[1][1]}:{k[1][0]}:{k[2][1]}:{k[2][0]}:{k[3]}:N:N")
+        else:
+            toks.append(f"{DM_KIND[k[0]]}:{k[1][1]}:{k[1][0]}:0:e:0:N:N")
+    return ",".join(toks) if toks else "-"
+
+
 def ref_run(kinds, ne, np_, nc, det, bits, rho0=None):
     """textbook semantics on dense matrices; photons first then emitters. returns (rho, record, outcomes, used_bits)"""
     n = ne + np_
@@ -201,16 +233,140 @@ def ref_run(kinds, ne, np_, nc, det, bits, rho0=None):
     return rho, rec, outs
 
 
-def one_case(ctx, res, drv, rng, SC, DC, ne, np_, nc, length, use_dm, init=False):
+
+def primitives_check(res, rng):
+    """The primitives of the Hilbert-space reading `DMH.dmRunH` (Proofs/DMCompileH.lean) against graphiq's builders, exhaustively for
+    n <= 4: `oneQ`, `ctrlQ`, the Z projectors, the reset Kraus pair, |0..0><0..0| are defined ENTRYWISE on bit strings in Lean
+    (qubit 0 = most significant bit of the numpy index); here the same entrywise definitions are evaluated in Python and compared
+    with `get_one_qubit_gate`, `get_two_qubit_controlled_gate`, `projectors_zbasis`, `get_reset_qubit_kraus`,
+    `create_n_product_state`, `hermitianize` and the 2x2 constants of functions.py."""
+    import graphiq.backends.density_matrix.functions as dmf
+
+    def bits(n, i):
+        return [(i >> (n - 1 - k)) & 1 for k in range(n)]
+
+    def oneq(n, q, u):
+        m = np.zeros((2 ** n, 2 ** n), dtype=complex)
+        for i in range(2 ** n):
+            for j in range(2 ** n):
+                a, b = bits(n, i), bits(n, j)
+                if all(a[k] == b[k] for k in range(n) if k != q):
+                    m[i, j] = u[a[q], b[q]]
+        return m
+
+    def ctrlq(n, c, t, u):
+        m = np.zeros((2 ** n, 2 ** n), dtype=complex)
+        for i in range(2 ** n):
+            for j in range(2 ** n):
+                a, b = bits(n, i), bits(n, j)
+                if all(a[k] == b[k] for k in range(n) if k != t):
+                    m[i, j] = u[a[t], b[t]] if b[c] else (1 if a[t] == b[t] else 0)
+        return m
+
+    def cmp(name, got, want, **inp):
+        res.evaluations += 1
+        if not (np.asarray(got).shape == np.asarray(want).shape and np.allclose(got, want, atol=1e-12)):
+            res.exact_break(f"dm-primitive:{name}", input=inp, impl=str(np.round(np.asarray(got), 6).tolist())[:300],
+                            model=str(np.round(np.asarray(want), 6).tolist())[:300])
+
+    r2 = 1 / np.sqrt(2)
+    consts = {"sigmax": [[0, 1], [1, 0]], "sigmay": [[0, -1j], [1j, 0]], "sigmaz": [[1, 0], [0, -1]], "hadamard": [[r2, r2], [r2, -r2]],
+              "phase": [[1, 0], [0, 1j]], "phase_dag": [[1, 0], [0, -1j]], "identity": [[1, 0], [0, 1]],
+              "projector_ketz0": [[1, 0], [0, 0]], "projector_ketz1": [[0, 0], [0, 1]]}
+    for k, v in consts.items():
+        cmp(k, getattr(dmf, k)(), np.array(v, dtype=complex))
+    from graphiq.backends.density_matrix.compiler import DensityMatrixCompiler
+    import graphiq.circuit.ops as ops
+    table = {"Hadamard": "hadamard", "Phase": "phase", "PhaseDagger": "phase_dag", "SigmaX": "sigmax", "SigmaY": "sigmay", "SigmaZ": "sigmaz",
+             "CNOT": "sigmax", "CZ": "sigmaz", "ClassicalCNOT": "sigmax", "ClassicalCZ": "sigmaz", "MeasurementCNOTandReset": "sigmax"}
+    for cls, k in table.items():
+        cmp(f"ops-table:{cls}", DensityMatrixCompiler.ops[getattr(ops, cls)](), np.array(consts[k], dtype=complex))
+    for n in range(1, 5):
+        cmp("create_n_product_state", dmf.create_n_product_state(n, dmf.state_ketz0()),
+            np.array([[1 if i == 0 and j == 0 else 0 for j in range(2 ** n)] for i in range(2 ** n)], dtype=complex), n=n)
+        for q in range(n):
+            g = np.array([[complex(rng.randrange(-3, 4), rng.randrange(-3, 4)) for _ in range(2)] for _ in range(2)])
+            cmp("get_one_qubit_gate", dmf.get_one_qubit_gate(n, q, g), oneq(n, q, g), n=n, q=q)
+            p = dmf.projectors_zbasis(n, q)
+            for sbit in (0, 1):
+                cmp("projectors_zbasis", p[sbit], np.diag([1.0 if bits(n, i)[q] == sbit else 0.0 for i in range(2 ** n)]), n=n, q=q, s=sbit)
+            kr = dmf.get_reset_qubit_kraus(n, q)
+            cmp("get_reset_qubit_kraus[0]", kr[0], oneq(n, q, np.array([[1, 0], [0, 0]])), n=n, q=q)
+            cmp("get_reset_qubit_kraus[1]", kr[1], oneq(n, q, np.array([[0, 1], [0, 0]])), n=n, q=q)
+            for t in range(n):
+                if t != q:
+                    cmp("get_two_qubit_controlled_gate", dmf.get_two_qubit_controlled_gate(n, q, t, g), ctrlq(n, q, t, g), n=n, c=q, t=t)
+    m = np.array([[complex(rng.random(), rng.random()) for _ in range(4)] for _ in range(4)])
+    cmp("hermitianize", dmf.hermitianize(m), (m + m.conj().T) / 2)
+
+
+def _variant(rng, d):
+    """another operation on the same registers as descriptor `d` (what `replace_op` accepts); None if there is none"""
+    k = d[0]
+    if k in GEN_NAMES or k == "PhaseDagger":
+        return (rng.choice([g for g in GEN_NAMES + ["PhaseDagger"] if g != k]), d[1])
+    if k == "W":
+        return (rng.choice(GEN_NAMES), d[2]) if rng.random() < 0.5 else ("W", tuple(rng.choice(GEN_NAMES) for _ in range(rng.randrange(1, 4))), d[2])
+    if k in ("CX", "CZ"):
+        return ("CZ" if k == "CX" else "CX", d[1], d[2])
+    if k in ("CCX", "CCZ"):
+        return ("CCZ" if k == "CCX" else "CCX", d[1], d[2], d[3])
+    return None
+
+
+def edited_circuit(rng, SC, desc, ne, np_, nc):
+    """a circuit object with a *history*: built, compiled once (whatever the library caches about the circuit is now filled), then some of its
+    operations exchanged through `replace_op`, possibly on a copy.  Returns (object, descriptor list of what the object now is)."""
+    circuit = build(desc, ne, np_, nc)
+    ids = sorted(n for n in circuit.dag.nodes if isinstance(n, int))
+    if len(ids) != len(desc):
+        return circuit, desc
+    try:
+        SC().compile(circuit)
+    except Exception:  # noqa: BLE001 — reported by the ordinary stream
+        pass
+    circuit.sequence()
+    if rng.random() < 0.4:
+        circuit = circuit.copy()
+    new_desc = list(desc)
+    for k in rng.sample(range(len(desc)), min(len(desc), rng.randrange(1, 4))):
+        v = _variant(rng, desc[k])
+        if v is None:
+            continue
+        circuit.replace_op(ids[k], _mk_op(v))
+        new_desc[k] = v
+    return circuit, new_desc
+
+
+def _mk_op(d):
+    """the operation object of one descriptor (same construction as `build`)"""
+    c = build([d], 64, 64, 8)
+    (n,) = [x for x in c.dag.nodes if isinstance(x, int)]
+    return c.dag.nodes[n]["op"]
+
+
+def one_case(ctx, res, drv, rng, SC, DC, ne, np_, nc, length, use_dm, init=False, history=False):
     import numpy.random as npr
     from graphiq.state import QuantumState
 
     desc = gen_circuit(rng, ne, np_, nc, length)
-    circuit = build(desc, ne, np_, nc)
-    toks, kinds = tokens_of(circuit)
+    if history and desc:
+        # the circuit the backends compile is reached through compile -> replace_op (-> copy); what it *is* (the model's input) is read off a
+        # freshly built circuit with the same operations, never off the edited object's own `sequence()`
+        circuit, desc = edited_circuit(rng, SC, desc, ne, np_, nc)
+        toks, kinds = tokens_of(build(desc, ne, np_, nc))
+        own = tokens_of(circuit)[0]
+        res.count("branches", "history:compile-replace_op-compile")
+        if own != toks:
+            res.violation("circuit:sequence-differs-from-dag-after-replace_op", "after compile -> replace_op the circuit's sequence() is not the operations its DAG holds",
+                          input={"ne": ne, "np": np_, "nc": nc, "ops": ",".join(toks), "sequence": ",".join(own)})
+    else:
+        circuit = build(desc, ne, np_, nc)
+        toks, kinds = tokens_of(circuit)
     n = ne + np_
     init_tab = tu.random_tableau(rng, n) if init else None
     lines, items = [], []
+    dm_lines, dm_items = [], []
     for det in (0, 1, "p"):
         bits = [rng.randrange(2) for _ in range(length + 2)]
         inp = {"ne": ne, "np": np_, "nc": nc, "det": det, "script": "".join(map(str, bits)), "ops": ",".join(toks) or "-",
@@ -257,7 +413,40 @@ def one_case(ctx, res, drv, rng, SC, DC, ne, np_, nc, length, use_dm, init=False
         init_args = (" " + tu.tab_args(init_tab)) if init_tab is not None else ""
         lines.append(f"circ.stab ne={ne} np={np_} nc={nc} det={det} script={inp['script']} ops={inp['ops']}{init_args}")
         items.append((inp, out, n))
-    for rep, (inp, out, n) in zip(drv.batch(lines), items):
+        if use_dm and init_tab is None and det in (0, 1) and n <= DM_EXEC_MAX_N:
+            # the executable exact density-matrix model (`compileDM`, noise off) — proved equal to rho(stabRun) for every
+            # circuit (C01 `executable_dm_model_agrees`); here it is run against the real DensityMatrixCompiler
+            dm_lines.append(f"noise.run be=dm ns=0 ne={ne} np={np_} nc={nc} det={det} ops={dm_tokens(kinds)}")
+            dm_items.append((inp, out, len(items) - 1))
+    stab_reps = drv.batch(lines)
+    for rep, (inp, out, k_item) in zip(drv.batch(dm_lines) if dm_lines else [], dm_items):
+        if rep["_status"] != "ok" or rep.get("nan") == "1":
+            res.exact_break("noise.run[dm,noise off]:error", input=inp, model=rep["_raw"][:200])
+            continue
+        mrho = du.parse_mat(rep).to_complex()
+        mrec_dm = [int(v) for v in rep["rec"].split(",")] if rep["rec"] != "-" else []
+        res.count("sizes", "dm-exec")
+        if "dm" in out and not isinstance(out["dm"][0], str):
+            data, rec, used = out["dm"]
+            if not du.mat_close(np.asarray(data), mrho, 1e-8) or rec != mrec_dm:
+                res.exact_break("compileDM[noise off]", input=inp, impl=f"rec={rec} " + str(np.round(np.asarray(data), 6).tolist())[:300],
+                                model=rep["_raw"][:400])
+            else:
+                res.traces_validated += 1
+        srep = stab_reps[k_item]
+        if srep["_status"] == "ok":
+            # the theorem itself, evaluated on the compiled model: compileDM == rho(stabRun), same record
+            n2 = int(srep["n"])
+            x = tu.unbits(srep["x"], (2 * n2, n2))
+            z = tu.unbits(srep["z"], (2 * n2, n2))
+            r = tu.unbits(srep["r"], (2 * n2,))
+            rho_m = np.eye(2 ** n2, dtype=complex) / 2 ** n2
+            for k in range(n2, 2 * n2):
+                rho_m = rho_m @ (np.eye(2 ** n2) + tu.pauli_matrix(x[k], z[k], r[k], 0))
+            srec = [int(c) for c in srep["rec"]] if srep["rec"] != "-" else []
+            if not du.mat_close(mrho, rho_m, 1e-9) or srec != mrec_dm:
+                res.exact_break("compileDM-vs-rho(stabRun) [theorem executable_dm_model_agrees]", input=inp, model=rep["_raw"][:400])
+    for rep, (inp, out, n) in zip(stab_reps, items):
         if rep["_status"] != "ok":
             res.exact_break("circ.stab:error", input=inp, model=rep["_raw"][:200])
             continue
@@ -265,6 +454,12 @@ def one_case(ctx, res, drv, rng, SC, DC, ne, np_, nc, length, use_dm, init=False
         if "1" in meas and any(c in inp["ops"] for c in ("CX", "CZ")):
             res.nontrivial(inp["ops"], inp["det"], inp["script"], inp["init"])
         res.branch(["meas:random"] * meas.count("1") + ["meas:det"] * meas.count("0"))
+        # drawn bits: consumed exactly by the random measurements in probabilistic mode, never under a forced setting
+        # (C01 `settings_whole_run`); the DM backend's `choice` counts as a draw only when both outcomes are possible
+        want_used = meas.count("1") if inp["det"] == "p" else 0
+        for name in ("stab", "dm"):
+            if name in out and not isinstance(out[name][0], str) and out[name][2] != want_used:
+                res.exact_break(f"circ.stab:rng-draws[{name}]", input=inp, impl=f"used={out[name][2]}", model=f"random measurements={want_used}")
         mrec = [int(c) for c in rep["rec"]] if rep["rec"] != "-" else []
         if "stab" in out and not isinstance(out["stab"][0], str):
             data, rec, used = out["stab"]
@@ -341,6 +536,7 @@ def run(ctx, budget=1.0):
     drv = Driver()
     rng = ctx.rng
     SC, DC = make_compilers()
+    primitives_check(res, rng)
     n_small = int((260 if ctx.quick else 3000) * budget)
     for k in range(n_small):
         ne = rng.randrange(1, 4)
@@ -348,7 +544,7 @@ def run(ctx, budget=1.0):
         if ne + np_ > 6:
             np_ = 6 - ne
         nc = rng.randrange(0, 4)
-        one_case(ctx, res, drv, rng, SC, DC, ne, np_, nc, rng.randrange(0, 26 if ctx.quick else 60), True, init=(k % 7 == 3))
+        one_case(ctx, res, drv, rng, SC, DC, ne, np_, nc, rng.randrange(0, 26 if ctx.quick else 60), True, init=(k % 7 == 3), history=(k % 5 == 1))
     for k in range(int((25 if ctx.quick else 200) * budget)):
         ne = rng.randrange(2, 12)
         np_ = rng.randrange(3, 30)
